@@ -26,6 +26,7 @@
 package memfs
 
 import (
+	"errors"
 	"io/fs"
 	"os"
 	"strings"
@@ -237,14 +238,160 @@ func (vfs *MemFS) Dir(path string) string {
 // unless one of the components is an absolute symbolic link.
 // EvalSymlinks calls Clean on the result.
 func (vfs *MemFS) EvalSymlinks(path string) (string, error) {
-	const op = "lstat"
+	return vfs.walkSymlinks(path)
+}
 
-	_, _, pi, err := vfs.searchNode(path, slmEval)
-	if err != vfs.err.FileExists {
-		return "", &fs.PathError{Op: op, Path: pi.LeftPart(), Err: err}
+// walkSymlinks is the walkSymlinks function of path/filepath for this file system :
+// a relative path stays relative as long as no link to an absolute path is met,
+// and up to 255 symbolic links are followed.
+func (vfs *MemFS) walkSymlinks(path string) (string, error) { //nolint:gocognit,gocyclo // Adapted from standard library.
+	volLen := avfs.VolumeNameLen(vfs, path)
+	pathSeparator := string(vfs.PathSeparator())
+
+	if volLen < len(path) && vfs.IsPathSeparator(path[volLen]) {
+		volLen++
 	}
 
-	return pi.Path(), nil
+	vol := path[:volLen]
+	dest := vol
+	linksWalked := 0
+
+	for start, end := volLen, volLen; start < len(path); start = end {
+		for start < len(path) && vfs.IsPathSeparator(path[start]) {
+			start++
+		}
+
+		end = start
+		for end < len(path) && !vfs.IsPathSeparator(path[end]) {
+			end++
+		}
+
+		// On Windows, "." can be a symlink.
+		// We look it up, and use the value if it is absolute.
+		// If not, we just return ".".
+		isWindowsDot := vfs.OSType() == avfs.OsWindows && path[avfs.VolumeNameLen(vfs, path):] == "."
+
+		// The next path component is in path[start:end].
+		if end == start {
+			// No more path components.
+			break
+		} else if path[start:end] == "." && !isWindowsDot {
+			// Ignore path component ".".
+			continue
+		} else if path[start:end] == ".." {
+			// Back up to previous component if possible.
+			// Note that volLen includes any leading slash.
+
+			// Set r to the index of the last slash in dest,
+			// after the volume.
+			var r int
+			for r = len(dest) - 1; r >= volLen; r-- {
+				if vfs.IsPathSeparator(dest[r]) {
+					break
+				}
+			}
+
+			if r < volLen || dest[r+1:] == ".." {
+				// Either path has no slashes
+				// (it's empty or just "C:")
+				// or it ends in a ".." we had to keep.
+				// Either way, keep this "..".
+				if len(dest) > volLen {
+					dest += pathSeparator
+				}
+
+				dest += ".."
+			} else {
+				// Discard everything since the last slash.
+				dest = dest[:r]
+			}
+
+			continue
+		}
+
+		// Ordinary path component. Add it to result.
+
+		if len(dest) > avfs.VolumeNameLen(vfs, dest) && !vfs.IsPathSeparator(dest[len(dest)-1]) {
+			dest += pathSeparator
+		}
+
+		dest += path[start:end]
+
+		// Resolve symlink.
+
+		fi, err := vfs.Lstat(dest)
+		if err != nil {
+			return "", err
+		}
+
+		if fi.Mode()&fs.ModeSymlink == 0 {
+			if !fi.Mode().IsDir() && end < len(path) {
+				return "", vfs.err.NotADirectory
+			}
+
+			continue
+		}
+
+		// Found symlink.
+
+		linksWalked++
+		if linksWalked > 255 {
+			return "", errors.New("EvalSymlinks: too many links")
+		}
+
+		link, err := vfs.Readlink(dest)
+		if err != nil {
+			return "", err
+		}
+
+		if isWindowsDot && !vfs.IsAbs(link) {
+			// On Windows, if "." is a relative symlink,
+			// just return ".".
+			break
+		}
+
+		path = link + path[end:]
+
+		v := avfs.VolumeNameLen(vfs, link)
+
+		switch {
+		case v > 0:
+			// Symlink to drive name is an absolute path.
+			if v < len(link) && vfs.IsPathSeparator(link[v]) {
+				v++
+			}
+
+			vol = link[:v]
+			volLen = v
+			dest = vol
+			end = len(vol)
+		case len(link) > 0 && vfs.IsPathSeparator(link[0]):
+			// Symlink to absolute path.
+			dest = link[:1]
+			end = 1
+			vol = link[:1]
+			volLen = 1
+		default:
+			// Symlink to relative path; replace last
+			// path component in dest.
+			var r int
+			for r = len(dest) - 1; r >= volLen; r-- {
+				if vfs.IsPathSeparator(dest[r]) {
+					break
+				}
+			}
+
+			if r < volLen {
+				dest = vol
+			} else {
+				dest = dest[:r]
+			}
+
+			end = 0
+		}
+	}
+
+	return vfs.Clean(dest), nil
 }
 
 // FromSlash returns the result of replacing each slash ('/') character
